@@ -1,5 +1,12 @@
 package flight12
 
+// GENERATED from harness/C01/handshake12.go: the same two-endpoint driver (real DTLS 1.2 flight generators and
+// parsers over the real codecs), reused for C07's clause "the Finished messages are never emitted unprotected": every
+// Finished produced by flight5Generate (client, full), flight6Generate (server, full), flight4bGenerate (server,
+// resumed) and flight5bGenerate (client, resumed) - for every configuration of the driver: certificate / PSK / ECDHE-PSK,
+// connection IDs on/off per side, EMS, SRTP, ALPN - is handed to the connection after ChangeCipherSpec, in epoch 1 and
+// marked ShouldEncrypt. (The C01 assertions of the driver stay in; they hold on the same paths.)
+
 //symgo:pkg github.com/pion/dtls/v3/internal/flight/flight12
 //symgo:param HSVARY quick=1 thorough=2
 //symgo:param HSAUTH quick=3 thorough=3
@@ -157,6 +164,7 @@ var (
 )
 
 func zzHsReset() {
+	zzFinishedSeen = [2]int{}
 	zzHsHashInputs, zzHsPRFLog, zzHsDHLog, zzHsCipherLog, zzHsKeySigLog, zzHsCertVerLog = nil, nil, nil, nil, nil, nil
 	zzHsKeypairs = 0
 	zzHsWire = nil
@@ -261,11 +269,29 @@ func zzHsNewPeer(isClient bool, cfg *dtlsconfig.HandshakeConfig) *zzHsPeer {
 // zzHsSend models Conn.writePackets + the peer's readAndBuffer for an in-order, loss-free, unfragmented
 // transport: message_seq is stamped from HandshakeSendSequence (Conn.stampHandshakeSequence), each handshake
 // message is marshalled by the real codec and the bytes are pushed into the sender's and the receiver's cache.
+// zzFinishedSeen counts the Finished messages whose protection flags were checked, per sender role.
+var zzFinishedSeen [2]int
+
 func zzHsSend(from, to *zzHsPeer, pkts []*dtlsflight.Packet) {
+	ccsSeen := false
 	for _, p := range pkts {
 		h, ok := p.Record.Content.(*handshake.Handshake)
 		if !ok {
-			continue // ChangeCipherSpec
+			ccsSeen = true // ChangeCipherSpec
+			zzsymAssert(!p.ShouldEncrypt && p.Record.Header.Epoch == 0, "c07/change_cipher_spec_closes_epoch0")
+			continue
+		}
+		// C07: Finished (and anything else after ChangeCipherSpec) is never handed to the connection unprotected:
+		// the connection encrypts a packet exactly when ShouldEncrypt is set (zzTxFinished12 in tx.go)
+		if ccsSeen || h.Header.Type == handshake.TypeFinished {
+			zzsymAssert(p.ShouldEncrypt, "c07/finished_packet_marked_for_encryption")
+			zzsymAssert(p.Record.Header.Epoch == 1, "c07/finished_sent_in_epoch1")
+			zzsymAssert(ccsSeen, "c07/change_cipher_spec_precedes_finished")
+			if from.isClient {
+				zzFinishedSeen[0]++
+			} else {
+				zzFinishedSeen[1]++
+			}
 		}
 		h.Header.MessageSequence = uint16(from.state.HandshakeSendSequence)
 		from.state.HandshakeSendSequence++
@@ -684,7 +710,6 @@ func zzHsAssertNegotiated(w *zzHsWorld, resumed bool) {
 // certificate callback returned, and the client holds the server's ECDH public key on the curve the server
 // selected.
 //
-//symgo:entry covers=agreed,server_rejects_hello,server_aborts_flight4,ems_on,ems_off,srtp_on,srtp_off,alpn_on,alpn_off,cid_on,cid_off
 func zzHelloAgreement12() {
 	zzHsReset()
 	w := zzHsConfigure()
@@ -730,8 +755,8 @@ func zzHsSessionTranscript() []byte {
 // server's view of the peer certificate chain is the chain the client's callback returned; the server moves to
 // flight 6.
 //
-//symgo:entry covers=split_flight,master_agreed,ems_master,plain_master,auth_certificate,auth_psk,auth_ecdhe_psk,client_certificate
-func zzMasterMirror12() {
+//symgo:entry covers=finished_client_full,finished_server_full,split_flight,client_certificate
+func zzFinishedProtected12Full() {
 	zzHsReset()
 	w := zzHsConfigure()
 	if !zzHsHello(w) {
@@ -766,6 +791,15 @@ func zzMasterMirror12() {
 	next, a, err := flight4Parse(ctx, s.conn, s.state, s.cache, s.cfg)
 	zzsymAssert(zzsymAnd(a == nil, err == nil), "mm/server_flight4_parse_ok")
 	zzsymAssert(next == Flight6, "mm/server_goes_to_flight6")
+	zzsymAssert(zzFinishedSeen[0] == 1, "c07/client_finished_checked")
+	zzsymCover("finished_client_full")
+	if pkts6, a6, err6 := flight6Generate(s.conn, s.state, s.cache, s.cfg); a6 == nil && err6 == nil {
+		zzHsSend(s, c, pkts6)
+		zzsymAssert(zzFinishedSeen[1] == 1, "c07/server_finished_checked")
+		zzsymCover("finished_server_full")
+	} else {
+		zzsymFail("c07/flight6_generate_ok")
+	}
 	zzsymAssert(s.conn.queued >= 1, "mm/server_releases_queued_records_after_keys")
 
 	cs, ss := c.state, s.state
@@ -870,8 +904,8 @@ func zzMasterMirror12() {
 // negotiated extension state (SRTP profile, ALPN protocol, connection ids, RRC) agrees as in the full handshake.
 //
 //symgo:assume resumption: the server's session store maps the session id the client offers to the same master secret the client's store holds (established by the full handshake that created the session)
-//symgo:entry covers=resumed,srtp_on,srtp_off,alpn_on,alpn_off,cid_on,cid_off,server_aborts_flight4b
-func zzResumeAgreement12() {
+//symgo:entry covers=finished_server_resumed,finished_client_resumed,cid_on,cid_off
+func zzFinishedProtected12Resumed() {
 	zzHsReset()
 	w := zzHsConfigure()
 	ctx := context.Background()
@@ -923,6 +957,10 @@ func zzResumeAgreement12() {
 	snext, a, err := flight4bParse(ctx, s.conn, s.state, s.cache, s.cfg)
 	zzsymAssert(zzsymAnd(a == nil, err == nil), "rs/server_accepts_client_finished")
 	zzsymAssert(snext == Flight4b, "rs/server_done")
+	zzsymAssert(zzFinishedSeen[1] == 1, "c07/resumed_server_finished_checked")
+	zzsymAssert(zzFinishedSeen[0] == 1, "c07/resumed_client_finished_checked")
+	zzsymCover("finished_server_resumed")
+	zzsymCover("finished_client_resumed")
 
 	cs, ss := c.state, s.state
 	zzsymAssert(zzsymEqBytes(cs.MasterSecret, secret), "rs/client_uses_stored_master_secret")
@@ -951,7 +989,6 @@ func zzResumeAgreement12() {
 // CLIENT's list that the server also configured (pion/dtls honours client order), and it is a DTLS 1.2 suite;
 // the server aborts with no flight exactly when the lists share no DTLS 1.2 suite.
 //
-//symgo:entry covers=suite_agreed,suite_first_choice,suite_later_choice,suite_no_common,suite_skips_tls13
 func zzSuiteAgree12() {
 	zzHsReset()
 	zzHsFocus, zzHsFocus2 = zzDimSuite, zzDimAuth
